@@ -650,3 +650,30 @@ Proof.
   - intros out c j Hj Hl. rewrite Hbody by assumption. cbn [Nat.add fst snd].
     rewrite Nat2Z.inj_succ. reflexivity.
 Qed.
+
+(* the same for a hypothesis `H : cond = true / false`: case analysis on the comparisons in H (contradictory cases closed) *)
+Ltac zbool_hyp H :=
+  cbv beta iota in H; rewrite ?Z.gtb_ltb, ?Z.geb_leb in H;
+  repeat match type of H with
+         | context [?a <? ?b] => destruct (Z.ltb_spec a b)
+         | context [?a <=? ?b] => destruct (Z.leb_spec a b)
+         | context [?a =? ?b] => destruct (Z.eqb_spec a b)
+         end;
+  cbn [negb andb orb] in H; try discriminate H.
+
+(* H : <condition of an upward loop at counter a, bound b> = true  becomes  H : (a < b)%nat, for the spellings `a < b`
+   (`b > a`) and `a != b` (the latter needs the invariant a <= b in the context); cond_false_in: H : (b <= a)%nat *)
+Ltac cond_true_in H :=
+  match type of H with
+  | (Z.of_nat ?a <? Z.of_nat ?b) = true => rewrite ltb_of_nat in H; apply Nat.ltb_lt in H
+  | negb (Z.of_nat ?a =? Z.of_nat ?b) = true =>
+      let H' := fresh in assert (H' : (a < b)%nat) by (zbool_hyp H; lia); clear H; rename H' into H
+  | negb (Z.of_nat ?b =? Z.of_nat ?a) = true =>
+      let H' := fresh in assert (H' : (a < b)%nat) by (zbool_hyp H; lia); clear H; rename H' into H
+  end.
+Ltac cond_false_in H :=
+  match type of H with
+  | (Z.of_nat ?a <? Z.of_nat ?b) = false => rewrite ltb_of_nat in H; apply Nat.ltb_ge in H
+  | negb (Z.of_nat ?a =? Z.of_nat ?b) = false =>
+      let H' := fresh in assert (H' : (b <= a)%nat) by (zbool_hyp H; lia); clear H; rename H' into H
+  end.
